@@ -405,6 +405,168 @@ fn replay(ais: &[AI], prealloc: u32, nblobs: u8, children: u32, subintent: bool)
     Ok(())
 }
 
+
+// ---- deterministic scripted family (identical for every seed) ---------------------------------------------
+struct Script { class: String, flags: [bool; 6], system: bool, subintent: bool, nblobs: u8, children: u32, prealloc: u32, instrs: Vec<InstructionV2> }
+fn scripted() -> Vec<Script> {
+    use InstructionV2 as I;
+    let fres = || res_addr(true, 1); let nfres = || res_addr(false, 3);
+    let take = || I::TakeAllFromWorktop(TakeAllFromWorktop { resource_address: fres() });
+    let take_nf = || I::TakeAllFromWorktop(TakeAllFromWorktop { resource_address: nfres() });
+    let ret = |b: u32| I::ReturnToWorktop(ReturnToWorktop { bucket_id: ManifestBucket(b) });
+    let burn = |b: u32| I::BurnResource(BurnResource { bucket_id: ManifestBucket(b) });
+    let pb = |b: u32| I::CreateProofFromBucketOfAll(CreateProofFromBucketOfAll { bucket_id: ManifestBucket(b) });
+    let pb_amt = |b: u32| I::CreateProofFromBucketOfAmount(CreateProofFromBucketOfAmount { bucket_id: ManifestBucket(b), amount: dec!("1") });
+    let paz = || I::PopFromAuthZone(PopFromAuthZone);
+    let dp = |p: u32| I::DropProof(DropProof { proof_id: ManifestProof(p) });
+    let push = |p: u32| I::PushToAuthZone(PushToAuthZone { proof_id: ManifestProof(p) });
+    let clone = |p: u32| I::CloneProof(CloneProof { proof_id: ManifestProof(p) });
+    let drop_all = || I::DropAllProofs(DropAllProofs); let drop_named = || I::DropNamedProofs(DropNamedProofs);
+    let drop_az = || I::DropAuthZoneProofs(DropAuthZoneProofs); let drop_az_reg = || I::DropAuthZoneRegularProofs(DropAuthZoneRegularProofs);
+    let drop_az_sig = || I::DropAuthZoneSignatureProofs(DropAuthZoneSignatureProofs);
+    let b = |x: u32| custom(ManifestCustomValue::Bucket(ManifestBucket(x)));
+    let pf = |x: u32| custom(ManifestCustomValue::Proof(ManifestProof(x)));
+    let rv = |x: u32| custom(ManifestCustomValue::AddressReservation(ManifestAddressReservation(x)));
+    let na = |x: u32| custom(ManifestCustomValue::Address(ManifestAddress::Named(ManifestNamedAddress(x))));
+    let bl = |x: u8| custom(ManifestCustomValue::Blob(ManifestBlobRef(blob_hash(x).0)));
+    let ex = || custom(ManifestCustomValue::Expression(ManifestExpression::EntireWorktop));
+    let tup = |v: Vec<ManifestValue>| ManifestValue::Tuple { fields: v };
+    let call = |v: Vec<ManifestValue>| I::CallMethod(CallMethod { address: ManifestGlobalAddress::Static(comp_addr(2).into()), method_name: "m".into(), args: ManifestValue::Tuple { fields: v } });
+    let call_named = |n: u32, v: Vec<ManifestValue>| I::CallMethod(CallMethod { address: ManifestGlobalAddress::Named(ManifestNamedAddress(n)), method_name: "m".into(), args: ManifestValue::Tuple { fields: v } });
+    let callf_named = |n: u32| I::CallFunction(CallFunction { package_address: ManifestPackageAddress::Named(ManifestNamedAddress(n)), blueprint_name: "B".into(), function_name: "f".into(), args: ManifestValue::Tuple { fields: vec![] } });
+    let call_vault = |v: Vec<ManifestValue>| { let mut x = [0u8; NodeId::LENGTH]; x[0] = EntityType::InternalFungibleVault as u8; I::CallDirectVaultMethod(CallDirectVaultMethod { address: InternalAddress::new_or_panic(x), method_name: "m".into(), args: ManifestValue::Tuple { fields: v } }) };
+    let alloc = || I::AllocateGlobalAddress(AllocateGlobalAddress { package_address: FAUCET_PACKAGE, blueprint_name: "B".into() });
+    let yp = |v: Vec<ManifestValue>| I::YieldToParent(YieldToParent { args: ManifestValue::Tuple { fields: v } });
+    let yc = |i: u32, v: Vec<ManifestValue>| I::YieldToChild(YieldToChild { child_index: ManifestNamedIntentIndex(i), args: ManifestValue::Tuple { fields: v } });
+    let vp = || I::VerifyParent(VerifyParent { access_rule: AccessRule::AllowAll });
+    let valid_cs = || ManifestResourceConstraints::new().with_unchecked(fres(), ManifestResourceConstraint::NonZeroAmount);
+    let invalid_cs = || ManifestResourceConstraints::new().with_unchecked(fres(), ManifestResourceConstraint::ExactAmount(dec!("-1")));
+    let anc = |ok: bool| I::AssertNextCallReturnsOnly(AssertNextCallReturnsOnly { constraints: if ok { valid_cs() } else { invalid_cs() } });
+    let anci = |ok: bool| I::AssertNextCallReturnsInclude(AssertNextCallReturnsInclude { constraints: if ok { valid_cs() } else { invalid_cs() } });
+    let awo = |ok: bool| I::AssertWorktopResourcesOnly(AssertWorktopResourcesOnly { constraints: if ok { valid_cs() } else { invalid_cs() } });
+    let awc = |neg: bool| I::AssertWorktopContains(AssertWorktopContains { resource_address: fres(), amount: if neg { dec!("-0.000000000000000001") } else { dec!("0") } });
+    let awnf = |fung: bool| I::AssertWorktopContainsNonFungibles(AssertWorktopContainsNonFungibles { resource_address: if fung { fres() } else { nfres() }, ids: vec![] });
+    let abc = |x: u32, c: ManifestResourceConstraint| I::AssertBucketContents(AssertBucketContents { bucket_id: ManifestBucket(x), constraint: c });
+    let half = || ManifestResourceConstraint::ExactAmount(dec!("0.5"));
+    let exact_ids = || ManifestResourceConstraint::ExactNonFungibles(indexset!(NonFungibleLocalId::integer(1)));
+    // (class, kind: 0 transaction / 1 subintent / 2 system, nblobs, children, prealloc, instructions)
+    let base: Vec<(&str, u8, u8, u32, u32, Vec<I>)> = vec![
+        ("empty_transaction", 0, 0, 0, 0, vec![]),
+        ("lock_drop_all_return", 0, 0, 0, 0, vec![take(), pb(0), drop_all(), ret(0)]),
+        ("lock_drop_named_return", 0, 0, 0, 0, vec![take(), pb_amt(0), drop_named(), ret(0)]),
+        ("lock_drop_authzone_return", 0, 0, 0, 0, vec![take(), pb(0), drop_az(), ret(0)]),
+        ("lock_drop_authzone_regular_return", 0, 0, 0, 0, vec![take(), pb(0), drop_az_reg(), ret(0)]),
+        ("lock_drop_authzone_signature_return", 0, 0, 0, 0, vec![take(), pb(0), drop_az_sig(), ret(0)]),
+        ("lock_return", 0, 0, 0, 0, vec![take(), pb(0), ret(0)]),
+        ("lock_burn", 0, 0, 0, 0, vec![take(), pb(0), burn(0)]),
+        ("lock_drop_proof_return", 0, 0, 0, 0, vec![take(), pb(0), dp(0), ret(0)]),
+        ("lock_push_return", 0, 0, 0, 0, vec![take(), pb(0), push(0), burn(0)]),
+        ("lock_clone_drop_one_return", 0, 0, 0, 0, vec![take(), pb(0), clone(0), dp(0), ret(0)]),
+        ("lock_clone_drop_other_return", 0, 0, 0, 0, vec![take(), pb(0), clone(0), dp(1), ret(0)]),
+        ("lock_clone_drop_both_return", 0, 0, 0, 0, vec![take(), pb(0), clone(0), dp(0), dp(1), ret(0)]),
+        ("lock_clone_of_clone_drop_all", 0, 0, 0, 0, vec![take(), pb(0), clone(0), clone(1), drop_all(), ret(0)]),
+        ("lock_two_proofs_drop_named_twice", 0, 0, 0, 0, vec![take(), pb(0), pb(0), drop_named(), drop_named(), ret(0)]),
+        ("locks_independent_buckets", 0, 0, 0, 0, vec![take(), take(), pb(0), ret(1), dp(0), ret(0)]),
+        ("locks_other_bucket_locked", 0, 0, 0, 0, vec![take(), take(), pb(1), ret(0), ret(1)]),
+        ("authzone_proof_does_not_lock", 0, 0, 0, 0, vec![take(), paz(), ret(0)]),
+        ("proof_in_call_releases_lock", 0, 0, 0, 0, vec![take(), pb(0), call(vec![pf(0)]), ret(0)]),
+        ("proof_in_nested_arg_releases_lock", 0, 0, 0, 0, vec![take(), pb(0), call_vault(vec![tup(vec![ManifestValue::U8 { value: 1 }, tup(vec![pf(0)])])]), ret(0)]),
+        ("bucket_in_call_while_locked", 0, 0, 0, 0, vec![take(), pb(0), call(vec![b(0)])]),
+        ("proof_then_its_bucket_in_same_call", 0, 0, 0, 0, vec![take(), pb(0), call(vec![pf(0), b(0)])]),
+        ("bucket_then_its_proof_in_same_call", 0, 0, 0, 0, vec![take(), pb(0), call(vec![b(0), pf(0)])]),
+        ("bucket_with_expression_in_call", 0, 0, 0, 0, vec![take(), call(vec![ex(), b(0)])]),
+        ("expression_then_return_consumed", 0, 0, 0, 0, vec![take(), call(vec![b(0), ex()]), ret(0)]),
+        ("expression_only_leaves_bucket", 0, 0, 0, 0, vec![take(), call(vec![ex()])]),
+        ("bucket_twice_in_args", 0, 0, 0, 0, vec![take(), call(vec![b(0), b(0)])]),
+        ("proof_twice_in_args", 0, 0, 0, 0, vec![paz(), call(vec![pf(0), pf(0)])]),
+        ("bucket_never_created_0", 0, 0, 0, 0, vec![ret(0)]),
+        ("bucket_never_created_next", 0, 0, 0, 0, vec![take(), ret(1)]),
+        ("bucket_double_return", 0, 0, 0, 0, vec![take(), ret(0), ret(0)]),
+        ("bucket_return_then_burn", 0, 0, 0, 0, vec![take(), ret(0), burn(0)]),
+        ("proof_of_consumed_bucket", 0, 0, 0, 0, vec![take(), ret(0), pb(0)]),
+        ("proof_of_unknown_bucket", 0, 0, 0, 0, vec![pb(0)]),
+        ("clone_consumed_proof", 0, 0, 0, 0, vec![paz(), dp(0), clone(0)]),
+        ("clone_unknown_proof", 0, 0, 0, 0, vec![paz(), clone(1)]),
+        ("drop_proof_twice", 0, 0, 0, 0, vec![paz(), dp(0), dp(0)]),
+        ("push_after_drop_all", 0, 0, 0, 0, vec![paz(), drop_all(), push(0)]),
+        ("drop_after_drop_named", 0, 0, 0, 0, vec![paz(), drop_named(), dp(0)]),
+        ("drop_after_drop_authzone_ok", 0, 0, 0, 0, vec![paz(), drop_az(), dp(0)]),
+        ("drop_all_without_proofs", 0, 0, 0, 0, vec![drop_all(), drop_named(), drop_az()]),
+        ("new_proof_after_drop_all_gets_next_id", 0, 0, 0, 0, vec![paz(), drop_all(), paz(), dp(1)]),
+        ("dangling_bucket", 0, 0, 0, 0, vec![take()]),
+        ("dangling_second_bucket", 0, 0, 0, 0, vec![take(), take(), ret(0)]),
+        ("dangling_proof_is_fine", 0, 0, 0, 0, vec![paz()]),
+        ("dangling_reservation", 0, 0, 0, 0, vec![alloc()]),
+        ("reservation_consumed", 0, 0, 0, 0, vec![alloc(), call(vec![rv(0)])]),
+        ("reservation_twice", 0, 0, 0, 0, vec![alloc(), call(vec![rv(0)]), call(vec![rv(0)])]),
+        ("reservation_unknown", 0, 0, 0, 0, vec![call(vec![rv(0)])]),
+        ("reservation_second_dangling", 0, 0, 0, 0, vec![alloc(), alloc(), call(vec![rv(0)])]),
+        ("named_address_in_command", 0, 0, 0, 0, vec![alloc(), call_named(0, vec![rv(0)])]),
+        ("named_address_in_command_unknown", 0, 0, 0, 0, vec![call_named(0, vec![])]),
+        ("named_address_in_command_next", 0, 0, 0, 0, vec![alloc(), call_named(1, vec![rv(0)])]),
+        ("named_package_in_command_unknown", 0, 0, 0, 0, vec![callf_named(0)]),
+        ("named_address_in_args_unknown", 0, 0, 0, 0, vec![call(vec![na(0)])]),
+        ("named_address_in_args_next", 0, 0, 0, 0, vec![alloc(), call(vec![na(1), rv(0)])]),
+        ("named_address_in_args_ok", 0, 0, 0, 0, vec![alloc(), call(vec![na(0), rv(0)])]),
+        ("blob_registered_last", 0, 2, 0, 0, vec![call(vec![bl(1)])]),
+        ("blob_not_registered_next", 0, 2, 0, 0, vec![call(vec![bl(2)])]),
+        ("blob_none_registered", 0, 0, 0, 0, vec![call(vec![bl(0)])]),
+        ("yield_child_last_index", 0, 0, 2, 0, vec![yc(1, vec![])]),
+        ("yield_child_index_eq_count", 0, 0, 2, 0, vec![yc(2, vec![])]),
+        ("yield_child_no_children", 0, 0, 0, 0, vec![yc(0, vec![])]),
+        ("yield_child_with_bucket", 0, 0, 1, 0, vec![take(), yc(0, vec![b(0)])]),
+        ("yield_child_with_proof", 0, 0, 1, 0, vec![paz(), yc(0, vec![pf(0)])]),
+        ("yield_child_with_unknown_proof", 0, 0, 1, 0, vec![yc(0, vec![pf(0)])]),
+        ("yield_child_with_locked_bucket", 0, 0, 1, 0, vec![take(), pb(0), yc(0, vec![b(0)])]),
+        ("subintent_empty", 1, 0, 0, 0, vec![]),
+        ("subintent_only_yield", 1, 0, 0, 0, vec![yp(vec![])]),
+        ("subintent_yield_not_last", 1, 0, 0, 0, vec![yp(vec![]), paz()]),
+        ("subintent_two_yields", 1, 0, 0, 0, vec![yp(vec![]), yp(vec![])]),
+        ("subintent_ends_with_yield_child", 1, 0, 1, 0, vec![yc(0, vec![])]),
+        ("subintent_verify_parent", 1, 0, 0, 0, vec![vp(), yp(vec![])]),
+        ("subintent_yield_with_bucket", 1, 0, 0, 0, vec![take(), yp(vec![b(0)])]),
+        ("subintent_yield_with_proof", 1, 0, 0, 0, vec![paz(), yp(vec![pf(0)])]),
+        ("subintent_dangling_bucket_before_yield", 1, 0, 0, 0, vec![take(), yp(vec![])]),
+        ("transaction_yield_to_parent", 0, 0, 0, 0, vec![yp(vec![])]),
+        ("transaction_verify_parent", 0, 0, 0, 0, vec![vp()]),
+        ("next_call_then_call", 0, 0, 0, 0, vec![anc(true), call(vec![])]),
+        ("next_call_include_then_vault_call", 0, 0, 0, 0, vec![anci(true), call_vault(vec![])]),
+        ("next_call_then_yield_child", 0, 0, 1, 0, vec![anc(true), yc(0, vec![])]),
+        ("next_call_then_non_invocation", 0, 0, 0, 0, vec![anc(true), paz()]),
+        ("next_call_then_assertion", 0, 0, 0, 0, vec![anc(true), anc(true), call(vec![])]),
+        ("next_call_at_end", 0, 0, 0, 0, vec![call(vec![]), anc(true)]),
+        ("next_call_invalid_constraints", 0, 0, 0, 0, vec![anc(false), call(vec![])]),
+        ("next_call_then_failing_call", 0, 0, 0, 0, vec![anc(true), call(vec![b(0)])]),
+        ("subintent_next_call_then_yield", 1, 0, 0, 0, vec![anc(true), yp(vec![])]),
+        ("assert_worktop_valid", 0, 0, 0, 0, vec![awo(true), awc(false), awnf(false)]),
+        ("assert_worktop_invalid_constraints", 0, 0, 0, 0, vec![awo(false)]),
+        ("assert_worktop_negative_amount", 0, 0, 0, 0, vec![awc(true)]),
+        ("assert_worktop_ids_on_fungible", 0, 0, 0, 0, vec![awnf(true)]),
+        ("assert_bucket_valid_fungible", 0, 0, 0, 0, vec![take(), abc(0, half()), ret(0)]),
+        ("assert_bucket_fraction_on_non_fungible", 0, 0, 0, 0, vec![take_nf(), abc(0, half()), ret(0)]),
+        ("assert_bucket_ids_on_fungible", 0, 0, 0, 0, vec![take(), abc(0, exact_ids()), ret(0)]),
+        ("assert_bucket_ids_on_non_fungible", 0, 0, 0, 0, vec![take_nf(), abc(0, exact_ids()), ret(0)]),
+        ("assert_bucket_consumed", 0, 0, 0, 0, vec![take(), ret(0), abc(0, half())]),
+        ("assert_bucket_unknown", 0, 0, 0, 0, vec![abc(0, half())]),
+        ("assert_bucket_locked_is_fine", 0, 0, 0, 0, vec![take(), pb(0), abc(0, half()), drop_all(), ret(0)]),
+        ("system_preallocated_consumed", 2, 0, 0, 2, vec![call(vec![rv(0), rv(1)])]),
+        ("system_preallocated_dangling_first", 2, 0, 0, 2, vec![call(vec![rv(1)])]),
+        ("system_preallocated_dangling_all", 2, 0, 0, 1, vec![]),
+        ("system_preallocated_next_unknown", 2, 0, 0, 1, vec![call(vec![rv(1)])]),
+        ("system_allocate_after_preallocated", 2, 0, 0, 1, vec![alloc(), call(vec![rv(0), rv(1)])]),
+    ];
+    let mut out = vec![];
+    for (class, kind, nblobs, children, prealloc, instrs) in base {
+        for variant in 0..7usize {
+            let mut flags = [true; 6];
+            if variant > 0 { flags[variant - 1] = false; }
+            out.push(Script { class: format!("s_{}__{}", class, ["all", "no_dup_blobs", "no_blob_refs", "no_lock", "no_dangling", "no_dyn_addr", "no_assert"][variant]),
+                flags, system: kind == 2, subintent: kind == 1, nblobs, children, prealloc, instrs: instrs.clone() });
+        }
+    }
+    out
+}
+
 fn main() {
     let args = Args::parse();
     let mut report = Report::new(
@@ -416,19 +578,23 @@ fn main() {
     );
     let mut cw = CaseWriter::new("RV.Corr.C36_run RV.Model.C36_ManifestIds", "check");
     let root = Rng::new(args.seed);
-    for i in 0..args.cases {
+    let scripts = scripted();
+    let mut script_classes: Vec<String> = vec![];
+    for i in 0..args.cases.max(scripts.len()) {
         let mut rng = root.fork(i as u64);
-        let flags: [bool; 6] = match rng.below(20) { 0..=11 => [true; 6], 12..=14 => [false, false, true, false, false, false], _ => [rng.bool(), rng.bool(), rng.bool(), rng.bool(), rng.bool(), rng.bool()] };
+        let script = scripts.get(i);
+        if let Some(sc) = script { report.count(&sc.class); script_classes.push(sc.class.clone()); }
+        let flags: [bool; 6] = if let Some(sc) = script { sc.flags } else { match rng.below(20) { 0..=11 => [true; 6], 12..=14 => [false, false, true, false, false, false], _ => [rng.bool(), rng.bool(), rng.bool(), rng.bool(), rng.bool(), rng.bool()] } };
         let ruleset = || ValidationRuleset { validate_no_duplicate_blobs: flags[0], validate_blob_refs: flags[1], validate_bucket_proof_lock: flags[2],
             validate_no_dangling_nodes: flags[3], validate_dynamic_address_in_command_part: flags[4], validate_resource_assertions: flags[5] };
         let all_rules = flags.iter().all(|f| *f);
-        let system = i % 9 == 8;
-        let subintent = !system && rng.chance(1, 3);
-        let nblobs = rng.below(3) as u8;
-        let children = if system { 0 } else { rng.below(3) as u32 };
-        let prealloc = if system { rng.below(3) as u32 } else { 0 };
+        let system = if let Some(sc) = script { sc.system } else { i % 9 == 8 };
+        let subintent = if let Some(sc) = script { sc.subintent } else { !system && rng.chance(1, 3) };
+        let nblobs = if let Some(sc) = script { sc.nblobs } else { rng.below(3) as u8 };
+        let children = if let Some(sc) = script { sc.children } else if system { 0 } else { rng.below(3) as u32 };
+        let prealloc = if let Some(sc) = script { sc.prealloc } else if system { rng.below(3) as u32 } else { 0 };
         let misuse = *rng.pick(&[0u64, 0, 1, 3, 8]);
-        let len = if i % 7 == 0 { rng.below(5) } else { rng.range(4, 40) } as usize;
+        let len = if script.is_some() { 0 } else if i % 7 == 0 { rng.below(5) } else { rng.range(4, 40) } as usize;
         let mut g = Gen { rng: &mut rng, sh: Shadow { buckets: vec![], proofs: vec![], res: vec![true; prealloc as usize], named: 0 }, misuse, misused: false, nblobs, children, subintent };
         let mut instrs: Vec<InstructionV2> = vec![];
         for _ in 0..len {
@@ -440,7 +606,7 @@ fn main() {
             instrs.push(ins);
         }
         // clean-up tail (mostly): drop proofs, return buckets, pass reservations, yield
-        let cleanup = g.rng.chance(4, 5);
+        let cleanup = script.is_none() && g.rng.chance(4, 5);
         if cleanup {
             if !g.sh.live_proofs().is_empty() { instrs.push(InstructionV2::DropAllProofs(DropAllProofs)); g.apply(&AI::DropMany(true, true)); }
             for b in g.sh.live_buckets() { instrs.push(InstructionV2::ReturnToWorktop(ReturnToWorktop { bucket_id: ManifestBucket(b) })); }
@@ -452,6 +618,7 @@ fn main() {
             if subintent && g.rng.chance(9, 10) { instrs.push(InstructionV2::YieldToParent(YieldToParent::empty())); }
         }
         let misused = g.misused;
+        if let Some(sc) = script { instrs = sc.instrs.clone(); }
         let blobs: IndexMap<Hash, Vec<u8>> = (0..nblobs).map(|k| (blob_hash(k), vec![k])).collect();
         let child_set: IndexSet<ChildSubintentSpecifier> = (0..children).map(|k| ChildSubintentSpecifier { hash: SubintentHash(hash([9, k as u8])) }).collect();
         // ---- run the real interpreter ----
@@ -489,7 +656,7 @@ fn main() {
                     report.count("accepted_all_rules");
                 } else if flags[2] && flags[4] && flags[1] {
                     // bucket/proof/reservation part must hold whenever the lock, address and blob checks are on (dangling / end checks may be off)
-                    if let Err(what) = rp { if what.starts_with("step") { report.oracle_failure(i, "", &format!("accepted but the lifecycle replay fails: {}", what), input.clone()); } }
+                    if let Err(what) = rp { if what.starts_with("step") && !(what.contains("assertion on dead bucket") && !flags[5]) { report.oracle_failure(i, "", &format!("accepted but the lifecycle replay fails: {}", what), input.clone()); } }
                 }
             }
             Ok(Err(e)) => {
@@ -505,6 +672,9 @@ fn main() {
             coq_bool(subintent), prealloc, children, coq_list((0..nblobs).map(|k| format!("{}", k))), canon, res_coq
         ));
     }
+    for c in &script_classes { report.floor(c, 1); }
+    // every error kind of the interpreter's id machine is produced by the scripted family
+    for e in ["EBlobNotRegistered", "EBucketNotYetCreated", "EBucketAlreadyUsed", "EBucketLocked", "EProofNotYetCreated", "EProofAlreadyUsed", "EResNotYetCreated", "EResAlreadyUsed", "ENamedNotYetCreated", "EChildNotRegistered", "EDanglingBucket", "EDanglingRes", "ENotSupportedInTxIntent", "ESubintentEnd", "EProofToOtherIntent", "EInvalidConstraint", "ENextCallNotInvocation", "EEndedExpectingNextCall"] { report.floor(&format!("err_{}", e), 1); }
     let n = args.cases as u64;
     report.floor("accepted", n / 10);
     report.floor("rejected", n / 10);
